@@ -326,6 +326,46 @@ def phase(case, ctx, rng, st, am, label, held, last):
                     ctx.violation("start-state-modified", f"{entry}(k={k}, overwrite=False) changed the caller's start state", tags=tags)
                 if k > 0 and res.untyped_storage().data_ptr() == init.untyped_storage().data_ptr():
                     ctx.violation("start-state-aliased", f"{entry}(k={k}, overwrite=False) returned the caller's storage", tags=tags)
+    # a single chain handed over as a 1-D vector: same contract (shape kept, start untouched unless overwriting, then updated
+    # in place), decided by the same automaton on one row
+    for overwrite in (False, True):
+        k1 = int(rng.integers(1, 4))
+        row = V[int(rng.integers(0, N))]
+        v1d = torch.tensor(row, dtype=torch.double)
+        keep1 = v1d.clone()
+        mon = monitors.DispatchMonitor(tap_bernoulli=True)
+        if not overwrite:
+            mon.protect("initial_state", v1d)
+        entry = "sample" if overwrite else "gibbs_steps"
+        import warnings as _w1
+
+        with mon, _w1.catch_warnings():
+            _w1.simplefilter("ignore")
+            if entry == "sample":
+                r1 = ctx.lib("sample(1-D start)", st.sample, k1, initial_state=v1d, overwrite=overwrite, tags=tags)
+            else:
+                r1 = ctx.lib("gibbs_steps(1-D start)", rbm.gibbs_steps, k1, v1d, overwrite=overwrite, tags=tags)
+        ctx.count("one_dimensional_start_checks")
+        for w in mon.writes:
+            ctx.violation("protected-write", f"{entry}(k={k1}, 1-D start, overwrite=False) wrote to {w['target']} via {w['op']}",
+                          tags=dict(tags, target=w["target"].split(":")[0]), witness=w)
+        if not isinstance(r1, torch.Tensor) or tuple(r1.shape) != (nv,):
+            ctx.violation("shape", f"{entry} from a 1-D start returned shape {tuple(getattr(r1, 'shape', ()))}", tags=tags)
+            continue
+        if mon.bern:
+            # the draws of a single chain are 1-D; the automaton works on batches of one row
+            b1 = [(t_, (p_.unsqueeze(0) if p_.dim() == 1 else p_), (r_.unsqueeze(0) if r_.dim() == 1 else r_)) for t_, p_, r_ in mon.bern]
+            fin = automaton(b1, row[None, :], k1, f"{entry}(k={k1}, 1-D start, overwrite={overwrite})")
+            if fin is not None and not np.array_equal(fin.reshape(-1), r1.numpy().reshape(-1)):
+                ctx.violation("result-not-last-draw", f"{entry}(k={k1}, 1-D start) did not return the last visible draw of the chain", tags=tags)
+        if overwrite:
+            if r1.untyped_storage().data_ptr() != v1d.untyped_storage().data_ptr() or not torch.equal(v1d, r1):
+                ctx.violation("overwrite-not-in-place", f"{entry}(1-D start, overwrite=True): the caller's vector is not the returned chain state", tags=tags)
+        else:
+            if not torch.equal(v1d, keep1):
+                ctx.violation("start-state-modified", f"{entry}(k={k1}, overwrite=False) changed the caller's 1-D start vector", tags=tags)
+            if r1.untyped_storage().data_ptr() == v1d.untyped_storage().data_ptr():
+                ctx.violation("start-state-aliased", f"{entry}(k={k1}, overwrite=False) returned the caller's 1-D vector's storage", tags=tags)
     # chains continued across calls without overwriting: the earlier sample must survive
     s0 = torch.tensor(V[rng.integers(0, N, size=6)], dtype=torch.double)
     s1 = ctx.lib("sample", st.sample, 2, initial_state=s0, tags=tags)
